@@ -1,0 +1,29 @@
+//go:build !verif
+
+package service
+
+// Verification hook points (see verif_on.go). Without the verif build tag they
+// compile to nothing.
+const (
+	vpLoaded = iota + 1
+	vpPreLockC
+	vpPreLockP
+	vpLockedC
+	vpLockedP
+	vpUnlockedC
+	vpUnlockedP
+	vpPreWaitC
+	vpPreWaitP
+	vpWokeC
+	vpWokeP
+	vpStoredC
+	vpStoredP
+	vpCopied
+	vpDone
+	vpWritten
+	vpProcessed
+)
+
+func vpoint(obj interface{}, k int) {}
+
+func verifStopDone(svc *service) {}
